@@ -17,14 +17,14 @@ TIMEOUT = {'quick': 300, 'thorough': 3000}
 N_HIST = {'quick': 1600, 'thorough': 120000}
 RULE = ('cases: seeded histories of <=60 ops (join, leave, re-join, attach, detach) interleaved over 2-3 live models drawn from '
         '{Environment, SpaceWorld, DiscreteWorld, LineWorld, GridWorld}, 4-5 user component classes, agents with arbitrary subsets '
-        '(incl. none); class A (50%): attach/detach only while not resident; class B: resident attach/detach followed by the '
+        '(incl. none), agents may re-join another live model\'s environment (migration); class A (50%): attach/detach only while not resident; class B: resident attach/detach followed by the '
         'manual register/deregister call; class C: resident attach/detach unsynced. After every op all listings of all models '
         'are compared with the reference. Non-trivial: the history contains a leave of one of >=2 residents holding the same '
         'type, a re-join, and an empty-listing answer; distinct by (class, op trace) signature.')
 ASSUMPTIONS = ['component classes use identity equality; each component instance belongs to one agent',
                'PositionComponent managed by spatial worlds is outside the claim', 'F1/F2/F3/F6 are known findings (not repaired)']
 FLOORS = {'quick': {'listing_comparisons': 20000, 'classA_histories': 600, 'joins': 3000, 'leaves': 1500, 'rejoins': 500,
-                    'empty_answers': 3000, 'leave_shared_type': 500, 'strict_keyerror': 1000,
+                    'empty_answers': 3000, 'leave_shared_type': 500, 'strict_keyerror': 1000, 'migrations': 300,
                     'reach:Core.SystemManager.register_component': 2000, 'reach:Core.SystemManager.deregister_component': 1000},
           'thorough': {'listing_comparisons': 1000000, 'classA_histories': 40000}}
 EXHAUSTIVE = {}
@@ -188,7 +188,15 @@ def case_history(ctx, case):
         mm = a.mm
         x = rng.random()
         if not a.resident and x < 0.5:
-            # join
+            # join - usually the home model, sometimes another live model's environment (migration)
+            if rng.random() < 0.25:
+                other = rng.choice(models)
+                if other is not mm and not any(b.real.id == a.real.id for b in other.residents):
+                    a.mm = mm = other
+                    ctx.count('migrations')
+                    flags.add('migrate')
+            if any(b.real.id == a.real.id for b in mm.residents):
+                continue        # id taken there (duplicate adds are C04's subject)
             env = mm.real.environment
             if mm.kind == 'plain':
                 env.add_agent(a.real)
